@@ -1071,7 +1071,8 @@ class _Norm(ast.NodeTransformer):
 
 
 def normalise(tree: ast.Module) -> ast.Module:
-    from .constfold import fold_module_constants
+    from .constfold import fold_module_constants, unroll_registrars
+    unroll_registrars(tree)                      # N27
     fold_module_constants(tree)                  # N26 (before N23: a folded table can be a dispatch table)
     from .dispatch import expand_table_dispatch
     expand_table_dispatch(tree)                  # N23
